@@ -1,7 +1,7 @@
 """User-written definitions for C07 / C12: signatures with positional, keyword-only and **kwargs parameters,
 docstrings in three styles documenting all / some / none of them, in or out of order, possibly conflicting."""
 PNAMES = ["dataset_name", "epochs", "lr", "verbose", "path", "mode", "k"]
-ANN = {"int": ["5", "-3", "0"], "str": ["'mnist'", "'a b'"], "float": ["0.5", "1e-07"], "bool": ["True", "False"], "Optional[int]": ["None", "7"], "List[str]": ["None"]}
+ANN = {"int": ["5", "-3", "0"], "str": ["'mnist'", "'a b'", "''"], "float": ["0.5", "1e-07"], "bool": ["True", "False"], "Optional[int]": ["None", "7"], "List[str]": ["None"]}
 DOC_TYPES = ["int", "str", "float", "bool", "Optional[int]"]
 
 
@@ -17,7 +17,7 @@ def gen_def(r, allow_kwonly=True, allow_kwargs=True, method=None):
         ann = r.choice(list(ANN)) if r.random() < 0.6 else None
         want_default = r.random() < 0.55 or (seen_default and kind == "pos")
         if want_default:
-            default = r.choice(ANN[ann]) if ann else r.choice(["5", "'mnist'", "0.5", "True", "None"])
+            default = r.choice(ANN[ann]) if ann else r.choice(["5", "'mnist'", "0.5", "True", "None", "''", "0", "False"])
             if kind == "pos":
                 seen_default = True
         else:
